@@ -36,7 +36,7 @@ const (
 // time per worker process)
 var c04Custom bool
 var c04CustomDates = func() map[string]int64 {
-	d := func(y, m, dd int) int64 { return time.Date(y, time.Month(m), dd, 0, 0, 0, 0, time.UTC).UnixNano() }
+	d := func(y, m, dd int) int64 { return time.Date(y, time.Month(m), dd, 0, 0, 0, 0, time.UTC).Unix() }
 	return map[string]int64{"5/3/21": d(2021, 3, 5), "05/03/21": d(2021, 3, 5), "5/03/21": d(2021, 3, 5), "05/3/21": d(2021, 3, 5), "6/3/21": d(2021, 3, 6), "06/03/21": d(2021, 3, 6),
 		"15/12/20": d(2020, 12, 15), "1/1/21": d(2021, 1, 1), "01/01/21": d(2021, 1, 1), "1/01/21": d(2021, 1, 1), "31/1/21": d(2021, 1, 31)}
 }()
@@ -55,7 +55,8 @@ func cellClass(s string) (cls byte, i int64, f float64, t int64, b bool, txt str
 		return 'F', 0, x, 0, false, ""
 	}
 	if x, ok := v.asTime(); ok {
-		return 'D', 0, 0, x.UnixNano(), false, ""
+		// seconds and nanoseconds: the number of nanoseconds since the epoch identifies an instant only between 1678 and 2262
+		return 'D', int64(x.Nanosecond()), 0, x.Unix(), false, ""
 	}
 	if x, ok := v.asBool(); ok {
 		return 'B', 0, 0, 0, x, ""
@@ -97,7 +98,7 @@ func cellRel(a, b *string, strict bool) int {
 			}
 			return relDiff
 		case 'D':
-			if ta == tb {
+			if ta == tb && ia == ib {
 				return relSame // one instant written in two layouts (the sessions run in UTC, like the reference)
 			}
 			return relDiff
@@ -173,10 +174,12 @@ func c04Case(w *core.Worker, i int) {
 		"mixnum":  {"1", "1.0", "01", " 1", "1e0", "2", "2.50", "2.5", "-0.0", "0.0", "0", "-0", "100", "1e2", "abc", "10", "1O"},
 		"text":    profText,
 		"dates":   {"2012-02-03", "2012/02/03", "2012-02-03 00:00:00", "2012-02-04", "2012-02-03 09:18:15", "2012-02-03T09:18:15Z", "x2012", "2011-01-01"},
+		// instants outside 1678..2262, two of them 2^64 nanoseconds apart, the last instants a 64-bit count of nanoseconds reaches
+		"fardates": {"1000-01-01 00:00:00", "1584-07-21 23:34:33.709551616", "1000-01-01", "3000-01-01 00:00:00", "2415-07-22 23:34:33.709551616", "0001-01-01 00:00:00", "2262-04-11 23:47:16.854775807", "2262-04-11 23:47:16.854775808", "1677-09-21 00:12:43.145224192", "1677-09-21 00:12:43.145224191", "2012-02-03"},
 		"bools":   {"t", "true", "f", "false", "1", "0", "yes", "", " t", "2"},
 		"ints":    profInts,
 	}
-	pnames := []string{"hostile", "hostile", "mixnum", "text", "dates", "bools", "ints"}
+	pnames := []string{"hostile", "hostile", "mixnum", "text", "dates", "bools", "ints", "fardates"}
 	// every ninth case sets a datetime format of its own: texts that are datetimes only under that format (some shorter than
 	// any built-in notation) are bucketed by the instant they denote
 	c04Custom = i%9 == 4 && !strict
@@ -242,6 +245,10 @@ func c04Case(w *core.Worker, i int) {
 		return
 	}
 	if c04Custom {
+		// the same texts are bucketed once before the session has its format (they are plain texts then): whatever a process
+		// remembers about a text from that time must not outlive the change of the format
+		kl := strings.Join(names[:nk], ", ")
+		s.Exec("SELECT " + kl + ", COUNT(*) FROM t GROUP BY " + kl + "; SELECT DISTINCT " + kl + " FROM t; SELECT id, COUNT(*) OVER (PARTITION BY " + kl + " ORDER BY " + kl + ") FROM t; SELECT " + kl + " FROM t UNION SELECT " + kl + " FROM t;")
 		s.Exec("SET @@DATETIME_FORMAT TO '%e/%c/%y';")
 		w.Count("cases_with_a_datetime_format_of_the_session", 1)
 	}
